@@ -54,8 +54,8 @@ fn part(rng: &mut Rng, lex: &Lexicon) -> String {
 pub const PUNCTS: [&str; 16] = [", ", ",", "; ", " ; ", ": ", "! ", "? ", ". ", " / ", " (", ") ", " … ", " — ", "\" ", " , ", ",\n"];
 
 pub fn run(ctx: &Ctx) -> Outcome {
-    let n_split = ctx.n(150_000, 5_000_000);
-    let n_punct = ctx.n(100_000, 3_000_000);
+    let n_split = ctx.n(600_000, 12_000_000);
+    let n_punct = ctx.n(400_000, 8_000_000);
     let rep = run_sharded(ctx, |w, nw, rep| {
         let ls = LangSet::new();
         let mut rng = Rng::derive(ctx.seed, "C10", w as u64);
